@@ -146,14 +146,15 @@ TFinished ==
   /\ Consume /\ Ev.a = "Finished"
   /\ fins' = Append(fins, Ev.h)
   /\ Expect("Finished-before-merged", B(Ev.h <= store), 1)
-  /\ Expect("Finished-not-added", B(Ev.h \in added), 1)
+  \* (an Add whose return is not logged yet may already be synced)
+  /\ Expect("Finished-not-added", B(Ev.h \in added \cup {x[2] : x \in inflight}), 1)
   /\ Expect("Finished-twice", B(\E i \in 1..Len(fins) : fins[i] = Ev.h), 0)
   /\ UNCHANGED <<top, store, pool, added, ctxc, cancelret, erred, nfaults, from, to, inflight, lm, active, imps, savedok, unobserved>>
 
 TDone ==
   /\ Consume /\ Ev.a = "Done"
   /\ erred' = (erred \/ Ev.err = "error")
-  /\ IF Ev.err = "error" THEN Expect("Error-without-source-fault", B(nfaults > 0), 1)
+  /\ IF Ev.err = "error" THEN Expect("Error-without-source-fault", B(nfaults > 0 \/ ctxc), 1)
      ELSE IF Ev.err = "canceled" THEN Expect("Canceled-without-cancel", B(ctxc), 1)
      ELSE Expect("Done-without-error", Ev.err, "error")
   /\ UNCHANGED <<top, store, pool, fins, added, ctxc, cancelret, nfaults, from, to, inflight, lm, active, imps, savedok, unobserved>>
